@@ -205,6 +205,14 @@ func genC01(r *rand.Rand, tier string) []Case {
 		}
 		cases = append(cases, c)
 	}
+	// the lineages of the compaction check (selection by two criteria across a gap, excluded oldest tables) as programs
+	for _, cc := range genC06(r, "quick") {
+		c6 := cc.(*c06Case)
+		if len(c6.Steps) == 0 || len(cases)%1 != 0 {
+			continue
+		}
+		cases = append(cases, &c01Case{Opts: c6.Opts, Steps: c6.Steps, Keys: c6.Keys})
+	}
 	return cases
 }
 
